@@ -51,8 +51,10 @@ def gen_table(rng, flavour=None):
          "prepare_item": c51_prep_item, "dnc": rng.random() < 0.1},
         {"aid": 52, "ty": ("set", INT), "default": set_default[0], "factory": set_default[1], "decl": decl(),
          "prepare_item": c52_prep_item},
-        {"aid": 53, "ty": ("list", ("spec", 1)), "default": None, "factory": rng.choice([None, ("list", [])])},
-        {"aid": 54, "ty": ("dict", STR, ("spec", 1)), "default": None, "factory": rng.choice([None, ("dict", [])])},
+        {"aid": 53, "ty": ("list", ("spec", 1)), "default": None, "factory": rng.choice([None, ("list", [])]),
+         "prepare_item": rng.choice([None, None, None, ("id",)])},
+        {"aid": 54, "ty": ("dict", STR, ("spec", 1)), "default": None, "factory": rng.choice([None, ("dict", [])]),
+         "prepare_item": rng.choice([None, None, None, ("id",)])},
         {"aid": 3, "ty": ("opt", INT), "default": rng.choice([None, NONE, V(4)]), "decl": "Attr",
          "inv_by": rng.choice([[], [], [1], [99]])},
     ]
